@@ -1,4 +1,5 @@
 import HavocVerif.Basic.Proto
+import HavocVerif.Model.Http
 import HavocVerif.Model.Registry
 /-
   Driver for C16 (see harness/cmd/hv/c16.go for the line formats).
@@ -44,6 +45,23 @@ def sameSet (a b : List String) : Bool := a.all b.contains && b.all a.contains
 
 def sortStr (l : List String) : List String := (l.toArray.qsort (· < ·)).toList
 
+/-- what a request to listener `n` must meet, given the filter as last edited -/
+def probeWant (ua : List (String × String)) (busy : List String) (n u path hdr : String) : String :=
+  match ua.lookup n with
+  | some cur =>
+    let (cu, curis, chdr) := match cur.splitOn "|" with
+      | [a, b, c] => (a, b, c)
+      | _ => (cur, "-", "-")
+    let cfg : HttpConfig := { uris := if curis == "-" then [] else (curis.splitOn "+").map String.toList,
+                              headers := if chdr == "-" then [] else [((chdr.replace ":" ": ")).toList],
+                              userAgent := cu.toList, respHeaders := [], behindRedir := false }
+    let rq : HttpReq := { method := "POST".toList, requestUri := path.toList,
+                          headers := [("User-Agent".toList, u.toList)] ++
+                            (match hdr.splitOn ":" with | [k, v] => [(k.toList, v.toList)] | _ => []),
+                          peerHost := [] }
+    if admits cfg rq then "served" else "rejected"
+  | none => if busy.contains n then "any" else "noconn"
+
 def step (st : St) (l : Line) : St × Verdict :=
   match l.op, l.args with
   | "world", args =>
@@ -64,7 +82,9 @@ def step (st : St) (l : Line) : St × Verdict :=
                          busy := if fresh && k == "httpbusy" then n :: st.busy else st.busy }
         else none
       | "ledit", [n, u] => some { st with ua := st.ua.map fun (k, v) => if k == n then (k, u) else (k, v) }
+      | "ledit", [n, u, uris, hdr] => some { st with ua := st.ua.map fun (k, v) => if k == n then (k, s!"{u}|{uris}|{hdr}") else (k, v) }
       | "probe", [_, _] => some st
+      | "probe", [_, _, _, _] => some st
       | "halfopen", [_] => some st
       | "lremove", [n] => some { st with reg := regStep st.reg (.remove n), ua := st.ua.filter (·.1 ≠ n), busy := st.busy.filter (· ≠ n) }
       | "sconn", [n] =>
@@ -134,12 +154,15 @@ def step (st : St) (l : Line) : St × Verdict :=
               some (.specFail "C16.removed-still-accepting" s!"HTTP listener {n} was removed but its port still accepts connections")
             else none
           | "probe", [n, u] =>
-            let want := match st.ua.lookup n with
-              | some cur => if cur == u then "served" else "rejected"
-              | none => if st.busy.contains n then "any" else "noconn"
+            let want := probeWant st.ua st.busy n u "/" "-"
             let got := l.impl.headD ""
             if want == "any" || got == want || (want == "noconn" && got == "nolistener") then none
             else some (.specFail "C16.edit-not-applied" s!"request with user agent {u} to listener {n} (configured: {st.ua.lookup n}) was {got}, expected {want}")
+          | "probe", [n, u, path, hdr] =>
+            let want := probeWant st.ua st.busy n u path hdr
+            let got := l.impl.headD ""
+            if want == "any" || got == want || (want == "noconn" && got == "nolistener") then none
+            else some (.specFail "C16.edit-not-applied" s!"request {path} with user agent {u} and header {hdr} to listener {n} (filter as last edited: {st.ua.lookup n}) was {got}, expected {want}")
           | "ladd", ["http", n] =>
             if (st1.ua.any (·.1 == n)) && !(st.ua.any (·.1 == n)) && kv "tcp" l.impl == some "refused" then
               some (.diff s!"tcp=accepts")
